@@ -385,7 +385,13 @@ impl Display for SequencedSegment {
 
 impl StreamSocket {
     fn new(capacity: usize) -> (Self, mpsc::Receiver<SequencedSegment>, BidiFlowControl) {
-        let (tx, rx) = mpsc::channel(capacity);
+        // One slot beyond `capacity`: flow-control credits bound the number of
+        // unread *data* segments to `capacity`, but the FIN that follows them
+        // needs no credit. Without the spare slot a FIN arriving while the
+        // queue holds `capacity` unread data segments is parked in the reorder
+        // buffer, and since nothing re-drives that buffer when the reader
+        // drains the queue, the reader never observes end-of-file.
+        let (tx, rx) = mpsc::channel(capacity + 1);
         let flow_control = BidiFlowControl::new(capacity);
         let sock = Self {
             buf: IndexMap::new(),
